@@ -589,7 +589,16 @@ pub fn payment_strategy(p: &Profile, idx: usize) -> impl Strategy<Value = Paymen
         prop_oneof![4 => Just(1u8), 2 => Just(2u8), 1 => Just(3u8), 1 => Just(0u8)],
     )
         .prop_map(move |(a, t, r1, r2, h_plain, h_self, explicit_payee, recipient_ok, drain_parts)| PaymentSpec {
-            preimage: 0x11 * (idx as u8 + 1),
+            // sha256 of 32 x 0x04, 0x22 and 0xe3 share their first byte (0x9f): hashes that collide in a
+            // truncated key/prefix show up as cross-talk between payments
+            preimage: match (idx, t % 3 == 0) {
+                (0, false) => 0x11,
+                (0, true) => 0x04,
+                (1, _) => 0x22,
+                (2, false) => 0x33,
+                (2, true) => 0xe3,
+                (i, _) => 0x40 + i as u8,
+            },
             invoice_amount: if r1 < w_amountless { None } else { Some(a) },
             tlv_amount: t,
             hints: if r2 < w_self { h_self } else { h_plain },
